@@ -1,6 +1,7 @@
 package main
 
 import (
+	"bytes"
 	"fmt"
 	"math/big"
 	"net"
@@ -75,6 +76,39 @@ func buildMsg6(f []string) (dhcpv6.DHCPv6, error) {
 		}
 	}
 	return dhcpv6.FromBytes(d.ToBytes())
+}
+
+// wireRT6: does the reply survive the wire? Serialised, parsed back and serialised again it must give the same bytes, and
+// the IA_PDs read back must be the ones that were built, lifetimes to the second (the wire carries whole seconds)
+func wireRT6(out dhcpv6.DHCPv6) string {
+	return guard(func() string {
+		wire := out.ToBytes()
+		back, err := dhcpv6.FromBytes(wire)
+		if err != nil {
+			return "rt-unparsable"
+		}
+		if !bytes.Equal(back.ToBytes(), wire) {
+			return "rt-differs"
+		}
+		secs := func(x dhcpv6.DHCPv6) string {
+			m, ok := x.(*dhcpv6.Message)
+			if !ok {
+				return "other"
+			}
+			var sb strings.Builder
+			for _, ia := range m.Options.IAPD() {
+				fmt.Fprintf(&sb, "|%x", ia.IaId)
+				for _, p := range ia.Options.Prefixes() {
+					fmt.Fprintf(&sb, " %v %d %d", p.Prefix, int64(p.PreferredLifetime.Round(time.Second)/time.Second), int64(p.ValidLifetime.Round(time.Second)/time.Second))
+				}
+			}
+			return sb.String()
+		}
+		if secs(back) != secs(out) {
+			return "rt-differs"
+		}
+		return "rt-ok"
+	})
 }
 
 func fmtPrefixResp(resp dhcpv6.DHCPv6) string {
@@ -221,6 +255,9 @@ func (s *prefixState) rawMsg(f []string) string {
 			r := fmtPrefixResp(out)
 			if out == nil && !stop {
 				r = "drop-nostop"
+			}
+			if out != nil {
+				r += " " + wireRT6(out)
 			}
 			return r
 		})
